@@ -239,7 +239,11 @@ func discharge(obls []*Obligation, timeoutMs int) {
 	// undecided queries are retried one at a time on an otherwise idle machine with twice the timeout:
 	// a timeout caused by load must not turn into an alarm
 	if len(retry) > 0 && len(retry) <= 6 {
+		t0 := time.Now()
 		for _, it := range retry {
+			if time.Since(t0) > 90*time.Second {
+				break // the retry phase as a whole is bounded: a tree that really fails must not take forever to say so
+			}
 			r := Solve(it.text, 2*timeoutMs)
 			if r.Status == "unsat" || r.Status == "sat" {
 				r.Raw = "retry: " + r.Raw
